@@ -6,7 +6,27 @@ random markdown generator that stresses every clause of the property, hand-writt
 search / replay entry points used by props/C03.py.
 
 Nothing here models the implementation: the walker only reads `node.children`, `node.parent`, `node.tagname`
-and the attributes `ids`, `refid`, `backrefs`, `cols`, `morecols`, `morerows`.
+and the attributes `ids`, `refid`, `backrefs`, `cols`, `morecols`, `morerows`; to NAME a failure (signature) it
+also reads `id_link`, `auto`, `names`, `classes`, `label` and the observation marks the driver's hooks leave.
+
+Signatures (one per cause: violated clause, then the party at fault; never the single witness):
+
+  occurs-once:<tag>   parent-pointer:<tag>
+  section:under-<parent tag>   section:no-title[:eval-rst]   transition:inside-container
+  structure:eval-rst-splice:section-or-transition-under-container      (section / transition spliced under a container
+                                                                        by `{eval-rst}`; one cause: see SIG_RST_SPLICE)
+  ids:duplicate:<who>       who = eval-rst | toc-copy | math-label+math-label | math-label+other | <tagA>+<tagB>
+  refid:dangling:<lost>     lost = docinfo-stripped | node-removed:<Transform> | id-dropped:<Transform>: the id existed
+                            and that party lost it (found by `trace_ids`: ids before every transform of a second run)
+  refid:dangling:<tag>:<producer>:never-existed   no tree of the pipeline ever had the id: the writer of the refid is
+                            at fault.  tag = reference | footnote_reference | citation_reference | target; producer =
+                            id_link | myst-xref | sphinx-xref | contents | eval-rst | directive:<name> | other (reference),
+                            auto | symbol | manual | eval-rst (footnote/citation reference), propagated | indirect |
+                            eval-rst (target).  (`:untraced` instead of `:never-existed`: the second run could not tell)
+  backref:dangling:<lost>   backref:dangling:<footnote|citation>:<auto|symbol|manual|eval-rst>:never-existed
+  table:cols-colspecs   table:row-cells[:eval-rst]
+  footnote:no-label-first[:eval-rst]
+  exception:<Class>:<innermost Transform on the stack, else innermost library function>[:eval-rst-id]
 
 Own test run:  PYTHONPATH=/repo /venv/bin/python /verif/gen/c03_search.py [n] [seed]
 """
@@ -84,7 +104,8 @@ def _origin(node):
 
 def _note_kind(node):
     """Numbering kind of a footnote / footnote_reference / citation(_reference), read off the `auto` attribute:
-    auto (auto=1: every MyST `[^label]`), symbol (auto='*'), manual (no `auto`: rST `[1]_` only)."""
+    auto (auto=1: MyST `[^label]`, rST `[#]_` / `[#label]_`), symbol (auto='*': rST only), manual (no `auto`: MyST
+    `[^1]` with an all-digit label, rST `[1]_`)."""
     try:
         a = node.get("auto")
     except Exception:
@@ -144,6 +165,18 @@ def _producer(node):
             pass
         return "indirect"
     return org or "other"
+
+
+def _dangling_key(tag, producer, why):
+    """Signature tail of a dangling refid / backref: the party at fault.
+
+    The id existed and something lost it (docinfo-stripped, node-removed:<Transform>, id-dropped:<Transform>): the
+    signature names that culprit only - which kind of node still points at the id is not part of the cause (kind
+    and producer are in `what` / the detail).  The id never existed (or the second run could not tell): whoever
+    wrote the refid is at fault, so the signature names the referring node's tag and its producing construct."""
+    if why in ("never-existed", "untraced"):
+        return f"{tag}:{producer}:{why}"
+    return why
 
 
 def _is_math_anchor(node):
@@ -299,15 +332,15 @@ def check_tree(doc, stage, warnings_text="", history=None):
                     warned = _warned_targets(warnings_text)
                 if rid not in warned:
                     prod, why = _producer(e), why_missing(rid)
-                    fail(f"refid:dangling:{t}:{prod}:{why}", f"{t} ({prod}) refid {rid!r} is not the id of any "
-                         f"node ({why}) and no 'target not found' warning names it",
+                    fail("refid:dangling:" + _dangling_key(t, prod, why), f"{t} ({prod}) refid {rid!r} is not the "
+                         f"id of any node ({why}) and no 'target not found' warning names it",
                          {"refid": rid, "at": _path(e), "producer": prod, "why": why})
         if t in ("footnote", "citation"):
             for b in e.get("backrefs", []):
                 if b not in owner:
                     prod, why = _producer(e), why_missing(b)
-                    fail(f"backref:dangling:{t}:{prod}:{why}", f"{t} ({prod}) backref {b!r} is not the id of any "
-                         f"node ({why})", {"backref": b, "at": _path(e), "producer": prod, "why": why})
+                    fail("backref:dangling:" + _dangling_key(t, prod, why), f"{t} ({prod}) backref {b!r} is not "
+                         f"the id of any node ({why})", {"backref": b, "at": _path(e), "producer": prod, "why": why})
 
     # ---- clause 6: table shape
     for e in elements:
@@ -1293,6 +1326,7 @@ _CLAUSE_TEXT = {
     "parent-pointer": "every child's parent pointer is the node that lists it",
     "section": "sections occur only directly under the document or another section and start with a title",
     "transition": "transitions occur only directly under the document or a section",
+    "structure": "sections and transitions occur only directly under the document or a section",
     "ids": "all identifiers are unique",
     "refid": "every refid points at an identifier that exists in the tree unless a 'target not found' warning "
              "was issued for it",
